@@ -50,7 +50,7 @@ impl Prop for C03 {
 
     fn gen(&self, src: &mut Src) -> Case {
         let sources = 1 + src.below(2);
-        let pool = gen_pool(src, 9);
+        let pool = if src.chance(1, 600) { crate::replicas::gen_pool_big(src) } else { gen_pool(src, 9) };
         let plans = [gen_plan(src, &pool, sources), gen_plan(src, &pool, sources), gen_plan(src, &pool, sources)];
         let mut pre = [None; 3];
         for (i, p) in pre.iter_mut().enumerate() {
@@ -81,7 +81,7 @@ impl Prop for C03 {
     }
 
     fn rule(&self) -> &'static str {
-        "three replicas (OrSWotSet<1>/<2>) built from one pool of 1-9 ops with distinct stamps; mode Window: all \
+        "three replicas (OrSWotSet<1>/<2>) built from one pool of 1-9 ops (one case in 600: 200-5000 ops over up to 20000 keys) with distinct stamps; mode Window: all \
          stamps within 3000 s, each replica applies an arbitrary subset in arbitrary order via arbitrary sources; \
          mode Prefix: stamps over up to 6 h, each replica applies a gap-free per-origin prefix in stamp order; a \
          replica may already have merged another; oracle: live(A+B)=live(B+A), live((A+B)+C)=live(A+(B+C)), \
